@@ -16,6 +16,10 @@ import PprofVerif.Gen.FetchConsts
          (the src/base lists are the merged "profiles": the indices collected, in merge order;
           on err/panic they are empty)
 -/
+/- fetch.descs <c> <n> <n × (scheme trusted bodyOk)> <π> <m> <m × (…)> <σ>
+       like fetch.model, but every source is DESCRIBED (scheme 0 plug-in, 1 file, 2 http, 3 https,
+       4 https+insecure; certificate trusted; valid body) and the model's trust table
+       (SrcDesc.fetchable) decides which ones can be fetched. -/
 namespace Driver.C16
 open PV PV.Fetch
 
@@ -33,12 +37,51 @@ def req : Rd (Nat × List Bool × List Nat × List Bool × List Nat) := do
 
 def baseTag : Nat := 1000000
 
+def desc : Rd SrcDesc := do
+  let sc ← Rd.nat
+  let t ← Rd.bool
+  let b ← Rd.bool
+  let scheme ← match sc with
+    | 0 => pure Scheme.plugin
+    | 1 => pure Scheme.file
+    | 2 => pure Scheme.http
+    | 3 => pure Scheme.https
+    | 4 => pure Scheme.httpsInsecure
+    | _ => failure
+  pure ⟨scheme, t, b⟩
+
+def reqD : Rd (Nat × List SrcDesc × List Nat × List SrcDesc × List Nat) := do
+  let c ← Rd.nat
+  let n ← Rd.nat
+  let sd ← Rd.rep desc n
+  let π ← Rd.list Rd.nat
+  let m ← Rd.nat
+  let bd ← Rd.rep desc m
+  let σ ← Rd.list Rd.nat
+  pure (c, sd, π, bd, σ)
+
+def render (r : BothRun Unit (List Nat)) : String :=
+  let tail := Wr.render (["errs"] ++ Wr.list Wr.nat (r.srcPrinted.map (·.1)) ++
+                         ["berrs"] ++ Wr.list Wr.nat (r.basePrinted.map (·.1)))
+  match r.res with
+  | .ok b =>
+    Wr.render (["ok", "src"] ++ Wr.list Wr.nat (b.src.getD []) ++
+               ["base"] ++ Wr.list Wr.nat ((b.base.getD []).map (· - baseTag))) ++ " " ++ tail
+  | .err _ => "err src 0 base 0 " ++ tail
+  | .panic _ => "panic src 0 base 0 " ++ tail
+
 def ops : List (String × (List String → String)) := [
   ("fetch.chunk", fun _ => match Gen.FetchConsts.chunkSize? with
     | some c => toString c
     | none => "unknown"),
   ("fetch.facts", fun _ => Gen.FetchConsts.chunkShape ++ " " ++ Gen.FetchConsts.barrierShape ++ " " ++
     Gen.FetchConsts.collectShape),
+  ("fetch.descs", fun ts =>
+    match Rd.run reqD ts with
+    | none => "bad-op"
+    | some (c, sd, π, bd, σ) =>
+      let c := if c = 0 then Gen.FetchConsts.chunkSize?.getD 128 else c
+      render (grabSourcesAndBases catMerge c (outsOfDescs 0 sd) sd.length π (outsOfDescs baseTag bd) bd.length σ)),
   ("fetch.model", fun ts =>
     match Rd.run req ts with
     | none => "bad-op"
